@@ -1,6 +1,7 @@
 package transport
 
 import (
+	"context"
 	"encoding/json"
 	"fmt"
 	"io"
@@ -28,4 +29,23 @@ func writeJsonErrorf(w io.Writer, format string, args ...any) {
 
 func writeJsonGraphqlError(w io.Writer, err ...*gqlerror.Error) {
 	writeJson(w, &graphql.Response{Errors: err})
+}
+
+// nextResponse asks the response handler of a streamed operation for its next response.
+// A panic raised in there (user code that only runs while a value is serialized, such as
+// a custom marshaler) fails that response only: the headers are on the wire by then, and
+// an error body written by an outer recover would tear the framing of the stream.
+func nextResponse(
+	ctx context.Context,
+	exec graphql.GraphExecutor,
+	rc *graphql.OperationContext,
+	responses graphql.ResponseHandler,
+) (resp *graphql.Response) {
+	defer func() {
+		if r := recover(); r != nil {
+			gqlErr := gqlerror.WrapIfUnwrapped(rc.Recover(ctx, r))
+			resp = exec.DispatchError(ctx, gqlerror.List{gqlErr})
+		}
+	}()
+	return responses(ctx)
 }
